@@ -185,7 +185,18 @@ func safeRun[C any](p Prop[C], c C) (out Outcome, err error) {
 			err = fmt.Errorf("panic: %v\n%s", r, debug.Stack())
 		}
 	}()
-	return p.Run(c)
+	out, err = p.Run(c)
+	if err != nil && strings.HasPrefix(err.Error(), "harness:") {
+		// the harness could not run the case (no socket, sink starved by a busy machine, ...):
+		// never a verdict about the code under test; counted, and the driver reports the run
+		// as inconclusive if this happens to more than 1% of the cases
+		msg := err.Error()
+		if len(msg) > 60 {
+			msg = msg[:60]
+		}
+		return Outcome{Excluded: msg}, nil
+	}
+	return out, err
 }
 
 func writeFail(path string, raw []byte, msg string) {
